@@ -43,7 +43,13 @@ fn features() -> String {
     } else {
         "other"
     };
-    format!("map_order={}\n", kind)
+    // probe tokens on which serde_json's default (non float_roundtrip) algorithm is 1 ulp off
+    let probes = ["9007199254740991.0", "9.129787520162203e239", "1.2877086205464669e44"];
+    let exact = probes.iter().all(|t| {
+        let v: f64 = serde_json::from_str::<serde_json::Value>(t).unwrap().as_f64().unwrap();
+        v.to_bits() == t.parse::<f64>().unwrap().to_bits()
+    });
+    format!("map_order={}\nnumber_parse={}\n", kind, if exact { "exact" } else { "shipped" })
 }
 
 // ---------------------------------------------------------------------------
